@@ -7,6 +7,8 @@
 #      run the pinned suite (must pass, with and without compiled_data), run the demo (must FAIL), revert, run the
 #      demo (must PASS).
 #   2. git -C /repo apply <patch>; ./check <ID> quick for each listed id; git -C /repo checkout -- .
+# VCHECK=/tmp/verif-snap/check runs the checks from a snapshot worktree of /verif (so that edits in /verif do not
+# disturb a batch); evidence of these runs goes to seeded/<ID>/<L>/evidence_<check>.json, never to /verif/evidence.
 # Result is appended to /verif/seeded/<ID>/<letter>/ (patch.diff, demo.rs, meta.json, verdict.json).
 set -u
 ID="$1"; DDIR="$2"; L="$3"; shift 3
@@ -56,7 +58,7 @@ if [ "$confirm_applies" = yes ] && [ "$suite" = passed ] && [ "$suite_cd" = pass
   res=""
   for c in "${CHECKS[@]}"; do
     t0=$(date +%s)
-    VERIF_SEED=${VERIF_SEED:-1} ./check "$c" quick > "$OUT/check_$c.log" 2>&1; rc=$?
+    VERIF_SEED=${VERIF_SEED:-1} "${VCHECK:-/verif/check}" "$c" quick --evidence-path "$OUT/evidence_$c.json" > "$OUT/check_$c.log" 2>&1; rc=$?
     t1=$(date +%s)
     v=$(grep -m3 "^VIOLATION" "$OUT/check_$c.log" | tr '\n' ';')
     echo "check $c quick: exit=$rc $((t1-t0))s $v"
